@@ -55,6 +55,23 @@ claim("C14", "proof",
       "over packets (meta-step).",
       "CBMC code contracts (DFCC): enforced closed-form function contracts", "4/C14")
 
+claim("C03", "proof",
+      "ASCON-HASH/HASHA/XOF/XOFA: the incremental absorb/squeeze functions are enforced against a byte-serial sponge "
+      "automaton from an arbitrary state (every count, mode, and length below two rate blocks); every pre-computed "
+      "initial value is proved equal to the reference permutation of the specification's IV block; fixed-length, "
+      "customised (cXOF, names of 0..40 characters incl. the hashed-name path) and one-shot entry points are enforced "
+      "against their reference compositions for every input and every length below 2^40 with the permutation abstract.",
+      "Meta-step: length generalisation of the L1 step proofs (write loops cannot carry CBMC loop contracts). Function "
+      "names above 40 characters are outside the bound. Assembly permutation assumed to satisfy the C08 contract.",
+      "CBMC code contracts (DFCC): enforced function contracts, summary contracts in replaced form, constant obligations with the concrete reference permutation", "4/C03")
+claim("C07", "proof",
+      "Chunk invariance is the L1 contracts themselves: every incremental data function (XOF/XOFA/PRF absorb and squeeze, "
+      "AEAD block functions) is enforced for an arbitrary state and every entry position against 'the byte automaton "
+      "applied to exactly these bytes' (zero-length and null-buffer calls included), in-place variants included; copy "
+      "and re-init functions are enforced against 'equal abstract state' / 'same as init on a fresh object'.",
+      "Meta-step: induction over the number of calls. HMAC/HKDF/KMAC/KDF wrappers are thin compositions covered under C04/C05.",
+      "CBMC code contracts (DFCC): enforced function contracts parameterised by the entry position", "4/C07")
+
 NA_DEFAULT = {
     "C11": "secret-independence of control flow and addresses is a relational (2-safety) property of the shipped object code; a CBMC contract describes one execution of the C source and has no taint or relational mode (DESIGN section 6)",
     "C17": "compilability of C++ members is a compiler verdict, and CBMC's C++ front end rejects this repository's C++ (DESIGN 2.8, section 6)",
